@@ -1,7 +1,7 @@
 (* C18 — External catch-up never regresses, corrupts or panics (reset_node_state_if_update). *)
 From Coq Require Import Lia.
 From ChitchatModel Require Import Base SMap Ids Bytes Params NodeState Stream DeltaWire Message Cluster
-  FD Chitchat SMap_lemmas NodeState_lemmas Cluster_lemmas Chitchat_lemmas.
+  FD Chitchat SMap_lemmas NodeState_lemmas Cluster_lemmas Chitchat_lemmas Inv NodeInv.
 
 Lemma set_many_frontier : forall kvs c evs,
   c_gc (fst (set_many c kvs evs)) = c_gc c /\ c_max c <= c_max (fst (set_many c kvs evs))
@@ -100,6 +100,102 @@ Proof.
       exists o'. rewrite Es in H1. rewrite Es. auto.
 Qed.
 Print Assumptions C18_catchup_spec.
+
+(* ---- "... replaces its key set with the supplied one (keeping the newer version of a key present in
+        both)", entry by entry: when the catch-up goes through and the supplied keys are distinct,
+        EVERY supplied key is in the copy afterwards, holding the supplied entry, or the copy's own
+        previous entry when that one is at least as recent; nothing else is (C18_catchup_spec).
+        This is what the C18 key-set monitor evaluates on the implementation's dumps. ---- *)
+Definition merged (c : copy) (k : bytes) (v : vv) : vv :=
+  match kget k (c_kvs c) with
+  | Some old => if v_ver v <=? v_ver old then old else v
+  | None => v
+  end.
+
+Lemma svv_get_same c k v : kget k (c_kvs (fst (set_versioned_value c k v))) = Some (merged c k v).
+Proof.
+  unfold set_versioned_value, merged. destruct (kget k (c_kvs c)) as [old|] eqn:E.
+  - destruct (v_ver v <=? v_ver old); cbn [fst c_kvs]; [exact E|apply kget_kinsert_same].
+  - cbn [fst c_kvs]. apply kget_kinsert_same.
+Qed.
+Lemma svv_get_other c k v k' : k <> k' -> kget k' (c_kvs (fst (set_versioned_value c k v))) = kget k' (c_kvs c).
+Proof.
+  intros Hne. unfold set_versioned_value. destruct (kget k (c_kvs c)) as [old|].
+  - destruct (v_ver v <=? v_ver old); cbn [fst c_kvs]; [reflexivity|apply kget_kinsert_other; exact Hne].
+  - cbn [fst c_kvs]. apply kget_kinsert_other. exact Hne.
+Qed.
+Lemma svv_sorted c k v : ksorted (c_kvs c) -> ksorted (c_kvs (fst (set_versioned_value c k v))).
+Proof.
+  intros Hs. unfold set_versioned_value. destruct (kget k (c_kvs c)) as [old|].
+  - destruct (v_ver v <=? v_ver old); cbn [fst c_kvs]; [exact Hs|apply Inv.kinsert_sorted; exact Hs].
+  - cbn [fst c_kvs]. apply Inv.kinsert_sorted. exact Hs.
+Qed.
+
+Lemma set_many_sorted : forall kvs c evs, ksorted (c_kvs c) -> ksorted (c_kvs (fst (set_many c kvs evs))).
+Proof.
+  induction kvs as [|[k v] r IH]; intros c evs Hs; cbn [set_many fst]; [exact Hs|].
+  destruct (set_versioned_value c k v) as [c' ev] eqn:E. apply IH.
+  replace c' with (fst (set_versioned_value c k v)) by (rewrite E; reflexivity). apply svv_sorted. exact Hs.
+Qed.
+
+Lemma set_many_get : forall kvs c evs k v,
+  NoDup (map fst kvs) -> In (k, v) kvs -> kget k (c_kvs (fst (set_many c kvs evs))) = Some (merged c k v).
+Proof.
+  induction kvs as [|[k1 v1] r IH]; intros c evs k v Hnd Hin; [destruct Hin|].
+  cbn [set_many fst]. destruct (set_versioned_value c k1 v1) as [c' ev] eqn:E.
+  cbn [map fst] in Hnd. apply NoDup_cons_iff in Hnd as [Hni Hr].
+  assert (Hc' : c' = fst (set_versioned_value c k1 v1)) by (rewrite E; reflexivity).
+  destruct Hin as [Heq|Hin].
+  - injection Heq as -> ->.
+    (* the remaining supplied keys differ from k: the entry stays *)
+    assert (Hstay : forall r0 c0 evs0, ~ In k (map fst r0) -> kget k (c_kvs (fst (set_many c0 r0 evs0))) = kget k (c_kvs c0)).
+    { induction r0 as [|[k2 v2] r0 IH0]; intros c0 evs0 Hn; cbn [set_many fst]; [reflexivity|].
+      destruct (set_versioned_value c0 k2 v2) as [c0' ev0] eqn:E0.
+      rewrite IH0 by (intros H; apply Hn; right; exact H).
+      replace c0' with (fst (set_versioned_value c0 k2 v2)) by (rewrite E0; reflexivity).
+      apply svv_get_other. intros ->. apply Hn. left. reflexivity. }
+    rewrite Hstay by exact Hni. rewrite Hc'. apply svv_get_same.
+  - rewrite (IH c' (evs ++ ev) k v Hr Hin). unfold merged.
+    assert (Hne : k1 <> k) by (intros ->; apply Hni; apply (in_map fst) in Hin; exact Hin).
+    rewrite Hc', (svv_get_other c k1 v1 k Hne). reflexivity.
+Qed.
+
+Lemma kget_filter_keep (f : bytes * vv -> bool) m k v :
+  ksorted m -> kget k m = Some v -> f (k, v) = true -> kget k (filter f m) = Some v.
+Proof.
+  intros Hs Hg Hf. apply Inv.ksorted_in_get; [apply Inv.kfilter_sorted; exact Hs|].
+  apply filter_In. split; [apply Inv.kget_in; exact Hg|exact Hf].
+Qed.
+
+Theorem C18_catchup_installs_every_supplied_key : forall n i kvs mx gc c n' evs,
+  node_inv n -> NoDup (map fst kvs) ->
+  nm_get i (cs_nodes (nd_cs n)) = Some c -> c_max c < mx -> c_gc c <= mx ->
+  reset_node_state_if_update n i kvs mx gc = Ok (n', evs) ->
+  exists c', nm_get i (cs_nodes (nd_cs n')) = Some c' /\
+    (forall k v, In (k, v) kvs -> kget k (c_kvs c') = Some (merged c k v)) /\
+    (forall k o, kget k (c_kvs c') = Some o -> in_keys k kvs = true).
+Proof.
+  intros n i kvs mx gc c n' evs Hinv Hnd Hc Hmx Hgc Hrun. unfold reset_node_state_if_update in Hrun.
+  set (should_init := match last_heartbeat_if_deleted (nd_cs n) i with None => true | Some _ => false end) in Hrun.
+  set (cs := if should_init then node_state_mut_or_init (nd_cs n) i else nd_cs n) in Hrun.
+  assert (Hsame : nm_get i (cs_nodes cs) = Some c).
+  { unfold cs. destruct should_init; [|exact Hc]. unfold node_state_mut_or_init. rewrite Hc. exact Hc. }
+  rewrite Hsame in Hrun.
+  assert (E1 : (mx <=? c_max c) = false) by (apply N.leb_gt; exact Hmx). rewrite E1 in Hrun.
+  assert (E2 : (mx <? c_gc c) = false) by (apply N.ltb_ge; exact Hgc). rewrite E2 in Hrun.
+  destruct (set_many c kvs []) as [c1 evs1] eqn:Es.
+  destruct (lex_lt _ _); [|discriminate]. injection Hrun as <- _.
+  cbn [nd_cs with_cs with_fd cs_nodes]. eexists. split; [apply nm_get_insert_same|]. cbn [c_kvs]. split.
+  - intros k v Hin.
+    assert (Hci : ksorted (c_kvs c)).
+    { destruct Hinv as [_ Hcop]. apply (ci_sorted c). eapply Hcop. apply nm_get_in. exact Hc. }
+    pose proof (set_many_get kvs c [] k v Hnd Hin) as Hg. rewrite Es in Hg. cbn [fst] in Hg.
+    apply kget_filter_keep; [|exact Hg|].
+    + pose proof (set_many_sorted kvs c [] Hci) as Hs. rewrite Es in Hs. exact Hs.
+    + cbn [fst]. unfold in_keys. apply existsb_exists. exists (k, v). split; [exact Hin|]. apply bytes_eqb_eq. reflexivity.
+  - intros k o Hk. apply (sm_get_in bytes_cmp bytes_cmp_eq) in Hk. apply filter_In in Hk as [_ Hf]. exact Hf.
+Qed.
+Print Assumptions C18_catchup_installs_every_supplied_key.
 
 Example C18_nonvacuous :
   (* the follow-up of a gossip reset: copy at (gc 10, max 5), fetched state (gc 10, max 10) with
